@@ -100,6 +100,7 @@ instance (C : ChainCfg σ) (W : World) (p h : Nat) : Decidable (W.good C p h) :=
 def opNode : Op → Option Nat
   | .deliver p _ _ => some p | .block p _ => some p | .claim p _ _ _ _ => some p
   | .fire p _ _ => some p | .txs p => some p | .own p _ => some p | .byz _ => none
+  | .restart _ => none
 
 /-- apply an op of the one-height model at height `h` (`drain`: FIFO schedule for own messages);
 `none` = not a transition of the world -/
